@@ -758,6 +758,24 @@ func (e *engine) scenario(kind string, nMsgs int) {
 		w.mtx.Unlock()
 		b.mtx.Unlock()
 	}
+	// restart: the peer's process is restarted: its client (and every tracker) is gone, a NEW client
+	// for the same peer id attaches
+	restart := func(b *side) {
+		b.mtx.Lock()
+		b.ref.Release()
+		b.cl.ClearContext()
+		c, err := signaling_rpc_client.NewClient(e.le, &relayClient{w: w, src: b.ix}, e.keys[b.ix].SK, bo)
+		if err != nil {
+			panic(err)
+		}
+		b.cl = c
+		b.ref = c.AddPeerRef(b.peer)
+		w.mtx.Lock()
+		w.tkrOf[b.ref.VerifTrackerID()] = b.ix
+		w.mtx.Unlock()
+		c.SetContext(ctx)
+		b.mtx.Unlock()
+	}
 	if kind == "reopen-during-write" {
 		// C23: a request of peer `holder` is held on the wire inside the pipe's Send while the session
 		// is re-opened (the partner re-attaches, or the partner's stream fails and re-connects); it
@@ -886,6 +904,59 @@ func (e *engine) scenario(kind string, nMsgs int) {
 				paused[2].Store(false)
 				<-r2
 				actions = append(actions, "A->B warm-up; B's ack of m1 held on the wire; A's caller gives up on m1 (withdrawn); A sends m2 (B's client has it, B's application is not receiving); the late ack of m1 is released; B's application receives again")
+			}
+		}
+	} else if kind == "sender-reopen" {
+		// C21 sentinel (wave 5): message sequence numbers are NOT unique over the life of the
+		// receiver's tracker. Conversation after conversation, one peer's tracker is re-created (it
+		// releases its reference and takes a new one, or the whole client is restarted: a NEW client
+		// for the same peer id) while the partner keeps its tracker; the re-created sender numbers
+		// its messages from 1 again, so the partner is handed messages whose sequence numbers it has
+		// seen, delivered and acknowledged before. The lengths of the conversations are chosen so
+		// that the first, the last and every other sequence number of a conversation coincides with
+		// the LAST one of an earlier conversation. Both directions are used (the persistent peer
+		// keeps counting while the re-created one's receiver state is new). Every Send that reports
+		// success must have been returned to the partner's application (monitors below).
+		total = 0
+		re, stay := sides[1], sides[2]
+		if nMsgs%2 == 1 {
+			re, stay = sides[2], sides[1]
+		}
+		lens := []int{1, 1, 2, 3, 1, 2}
+		if nMsgs >= 3 {
+			lens = nil
+			for i := 0; i < 5; i++ {
+				lens = append(lens, 1+e.rng.Intn(3))
+			}
+			lens = append(lens, lens[len(lens)-1]) // the same length twice in a row
+		}
+		tag := byte(0)
+		pay := func() []byte { tag++; return append([]byte{7, tag}, e.rng.Bytes(5)...) }
+		ok := true
+		for c, n := range lens {
+			if c > 0 {
+				how := "releases its reference and takes a new one"
+				if (c+nMsgs/2)%2 == 0 {
+					how = "is restarted (a new client for the same peer id)"
+					restart(re)
+				} else {
+					reattach(re)
+				}
+				actions = append(actions, fmt.Sprintf("peer %d %s", re.ix, how))
+			}
+			for i := 0; i < n && ok; i++ {
+				total++
+				ok = sendNow(re, pay(), 8*time.Second, true) == nil
+			}
+			if ok && e.rng.Intn(2) == 0 {
+				total++
+				ok = sendNow(stay, pay(), 8*time.Second, true) == nil
+				actions = append(actions, fmt.Sprintf("peer %d sends %d (seqnos from 1); peer %d sends 1", re.ix, n, stay.ix))
+			} else {
+				actions = append(actions, fmt.Sprintf("peer %d sends %d (seqnos from 1)", re.ix, n))
+			}
+			if !ok {
+				break
 			}
 		}
 	} else if kind != "reattach" {
@@ -1215,8 +1286,11 @@ func (e *engine) run() {
 	for _, k := range []string{"messages", "redelivered_after_reattach", "relay_events", "usurped_streams", "sends_ok", "sends_cancelled", "client_events", "recv_calls", "recv_calls_returned_error", "session_opens_failed"} {
 		e.rep.Extra[k] = 0
 	}
-	e.rep.Require("e2e.stale-ack")
+	e.rep.Require("e2e.stale-ack", "e2e.sender-reopen")
 	e.scenario("stale-ack", 1)
+	for i := 1; i <= 4; i++ {
+		e.scenario("sender-reopen", i)
+	}
 	variants := []string{"send|reattach", "ack|stream-failure", "clear|reattach", "send|stream-failure", "clear|stream-failure"}
 	for _, v := range variants[:3] {
 		e.variant = v
